@@ -2171,16 +2171,6 @@ func (w *ttWorld) callGroup(group [][]string) []*ttCallRun {
 		// sync.Pool's are shared by them, as they are whenever two requests happen to run on the same P)
 		defer runtime.GOMAXPROCS(runtime.GOMAXPROCS(1))
 	}
-	if len(live) > 1 && w.unanswered >= 3 {
-		// enough unanswered overlapping calls in this run (each costs the harness its patience): from here
-		// on the calls of a group are made one after the other
-		var out []*ttCallRun
-		for _, toks := range group {
-			out = append(out, w.callGroup([][]string{toks})...)
-			out[len(out)-1].tags = append(out[len(out)-1].tags, "ovl-degraded")
-		}
-		return out
-	}
 	for i, r := range live {
 		r.ob = &ttObs{}
 		r.done = make(chan struct{})
@@ -2225,10 +2215,16 @@ func (w *ttWorld) callGroup(group [][]string) []*ttCallRun {
 	}
 	for i := len(live) - 2; i >= 0; i-- {
 		r := live[i]
+		// how long a released call may take to be answered: 10 s — and 100 ms once three calls of this run
+		// were never answered (each of them is a failing input already; the run goes on exploring)
+		patience := 10 * time.Second
+		if w.unanswered >= 3 {
+			patience = 100 * time.Millisecond
+		}
 		close(r.park.release)
 		select {
 		case <-r.done:
-		case <-time.After(10 * time.Second):
+		case <-time.After(patience):
 			// released, and no response: the observation of this call (res=unanswered)
 			r.unanswered = true
 		}
